@@ -11,8 +11,8 @@ package assets
 //verif:stub os.ReadFile = c39ReadFile
 //verif:stub (*os.File).ReadAt = c39ReadAt
 //verif:stub (*os.File).Close = c39Close
-//verif:bound Range header "bytes=" + up to 4 arbitrary bytes (quick) / 6 (thorough), and a fully arbitrary header of up to 3 bytes; one asset file of 6 known bytes; request path fixed to /x.txt, then (path harness) arbitrary paths of up to 5 bytes over {/ . a x}
-//verif:assume model file system: exactly one file <root>/x.txt exists; Stat/Open/ReadFile of any other name fail; ReadAt returns the bytes available from the offset and io.EOF when short
+//verif:bound Range header "bytes=" + up to 4 arbitrary bytes (quick) / 6 (thorough), and a fully arbitrary header of up to 3 bytes; one asset file of 6 known bytes; request path fixed to /x.txt, then (path harness) arbitrary paths (with or without a leading slash) of up to 5 bytes over {/ . a x l}, asset root /l with a sibling file /la
+//verif:assume model file system: the file <root>/x.txt exists, and next to the root a file whose name extends the root's name; Stat/Open/ReadFile of any other name fail; ReadAt returns the bytes available from the offset and io.EOF when short
 //verif:outside Markdown rendering, JS/CSS minification on load (C33/C34), the asset cache eviction policy, symbolic file contents/sizes beyond the one file
 
 import (
@@ -35,7 +35,13 @@ import (
 
 const c39Content = "abcdef"
 
-var c39Root = "/lib"
+var c39Root = "/l"
+
+// c39Outside is a file next to the asset root whose name extends the root's
+// name (the classic prefix-check trap); it must never be served.
+var c39Outside = "/la"
+
+const c39Secret = "SECRET"
 
 type c39Writer struct {
 	hdr    http.Header
@@ -78,7 +84,14 @@ var errC39NotFound = errors.New("no such file")
 
 func c39Exists(name string) bool {
 	c39Opened = append(c39Opened, name)
-	return name == c39Root+"/x.txt"
+	return name == c39Root+"/x.txt" || name == c39Outside
+}
+
+func c39ContentOf(name string) string {
+	if name == c39Outside {
+		return c39Secret
+	}
+	return c39Content
 }
 
 func c39Stat(name string) (os.FileInfo, error) {
@@ -97,7 +110,7 @@ func c39ReadFile(name string) ([]byte, error) {
 	if !c39Exists(name) {
 		return nil, errC39NotFound
 	}
-	return []byte(c39Content), nil
+	return []byte(c39ContentOf(name)), nil
 }
 func c39ReadAt(f *os.File, b []byte, off int64) (int, error) {
 	if off < 0 {
@@ -126,10 +139,12 @@ func c39Setup() func() {
 	if err != nil {
 		panic(err)
 	}
-	os.WriteFile(filepath.Join(dir, "x.txt"), []byte(c39Content), 0o644)
-	os.WriteFile(filepath.Join(filepath.Dir(dir), "c39-outside.txt"), []byte("SECRET"), 0o644)
-	c39Root = dir
-	settings.SetDefault(defs.EgoLibPathSetting, dir)
+	root := filepath.Join(dir, "l")
+	os.MkdirAll(root, 0o755)
+	os.WriteFile(filepath.Join(root, "x.txt"), []byte(c39Content), 0o644)
+	os.WriteFile(filepath.Join(dir, "la"), []byte(c39Secret), 0o644)
+	c39Root = root
+	settings.SetDefault(defs.EgoLibPathSetting, root)
 	return func() { os.RemoveAll(dir) }
 }
 
@@ -229,16 +244,16 @@ func VerifC39_pathConfinement() {
 	defer cleanup()
 	p := sym.String("path", 5)
 	for i := 0; i < len(p); i++ {
-		sym.Assume(p[i] == '/' || p[i] == '.' || p[i] == 'a' || p[i] == 'x')
+		sym.Assume(p[i] == '/' || p[i] == '.' || p[i] == 'a' || p[i] == 'x' || p[i] == 'l')
 	}
-	w, st := c39Request("/"+p, nil)
+	w, st := c39Request(p, nil)
 	sym.Reach("handled")
-	for _, name := range c39Opened {
-		sym.Assert(strings.HasPrefix(name, c39Root+"/"), "a file outside the asset root was accessed")
-	}
+	// (Which names were merely probed is not observable from outside the
+	// process, so only what is served is asserted.)
 	if !w.isErr && st == http.StatusOK {
 		sym.Assert(string(w.body) == c39Content, "content served that is not the asset under the root")
 	}
+	sym.Assert(!strings.Contains(string(w.body), c39Secret), "the content of a file outside the asset root was served")
 }
 
 // c39ParseDocumented recognises bytes=<digits>-<digits> and bytes=<digits>-.
